@@ -243,6 +243,22 @@ def simplifyFree {γ ω : Type} (zero : α) (obs : List ω) (c : CostFn γ α) (
   else if smode = 8 then some (optimalSimplificationPy zero obs c none 1)
   else none
 
+/-- `TrackCollection.simplify(tolerance, mode)` (core/track_collection.py) for the two "free" modes: `output = self.copy();
+for i in range(len(output)): output[i] = simplify(output[i], tolerance, mode)` — the tracks one after the other, the first
+exception ends the call. -/
+def collectionSimplifyFree {γ ω : Type} (zero : α) (c : CostFn γ α) (smode : Nat) :
+    List (List ω) → Option (Except Err (List (List ω)))
+  | [] => some (.ok [])
+  | t :: ts =>
+    match simplifyFree zero t c smode with
+    | none => none
+    | some (.error e) => some (.error e)
+    | some (.ok r) =>
+      match collectionSimplifyFree zero c smode ts with
+      | none => none
+      | some (.error e) => some (.error e)
+      | some (.ok rs) => some (.ok (r :: rs))
+
 /-! ### stop detection (`findStopsGlobal`) -/
 
 /-- what the row loops of stop detection read from the track and its parameters (geometry and clock not modelled:
